@@ -5,6 +5,7 @@
 //!   {"harness":..,"cases":N,"distinct_nontrivial":M,"bound":"..","failures":[{"fn":..,"input":..,"expected":..,"got":..,"class":..}]}
 mod clpz;
 mod fd;
+mod hooks;
 mod util;
 
 fn main() {
@@ -31,6 +32,8 @@ fn main() {
     match (args[1].as_str(), args[2].as_str()) {
         ("search", "fd") => fd::search(&tier, only.as_deref()),
         ("replay", "fd") => fd::replay(&args[3]),
+        ("search", "hooks") => hooks::search(&tier, only.as_deref()),
+        ("replay", "hooks") => hooks::replay(&args[3]),
         ("search", "clpz") => clpz::search(&tier, only.as_deref()),
         ("replay", "clpz") => clpz::replay(&args[3]),
         _ => {
